@@ -1048,6 +1048,102 @@ def gen_edges():
 GENERATORS["Edges"] = gen_edges
 
 
+# ---------------------------------------------------------------------------------------------------------
+# sort.process_alignment: the body of the loop over the path's nodes
+def gen_sort_loop():
+    _, src = src_of("gaftools/cli/sort.py")
+    fn = find_func(ast.parse(src), "process_alignment")
+    loop = _only([st for st in fn.body if isinstance(st, ast.For)], "path loop of process_alignment")
+    body = list(loop.body)
+    # for n in path: if n in [">", "<"]: orient = n; continue
+    if not (isinstance(body[0], ast.If) and ast.unparse(body[0].test) in ("n in ['>', '<']", "n in ('>', '<')") and isinstance(body[0].body[-1], ast.Continue)):
+        raise Untranslatable("path loop does not start with the orientation-token test")
+    body = body[1:]
+    tagvars = {}
+    while body and isinstance(body[0], ast.Assign) and isinstance(body[0].targets[0], ast.Name) and "nodes[n].tags" in ast.unparse(body[0].value):
+        u = ast.unparse(body[0].value)
+        m = re.fullmatch(r"(int\()?nodes\[n\]\.tags\['(\w+)'\]\[1\]\)?", u)
+        if not m:
+            raise Untranslatable("tag read %s" % u)
+        tagvars[body[0].targets[0].id] = m.group(2)
+        body = body[1:]
+    want = {"SN": "snTag", "BO": "bo", "NO": "no", "SR": "sr"}
+    if sorted(tagvars.values()) != sorted(want):
+        raise Untranslatable("tags read in the loop: %s" % sorted(tagvars.values()))
+    lean = {v: want[t] for v, t in tagvars.items()}
+    sn_var = next(v for v, t in tagvars.items() if t == "SN")
+
+    def test(e):
+        if isinstance(e, ast.BoolOp):
+            return "(" + (" && " if isinstance(e.op, ast.And) else " || ").join(test(x) for x in e.values) + ")"
+        if isinstance(e, ast.UnaryOp) and isinstance(e.op, ast.Not):
+            return "(!%s)" % test(e.operand)
+        if isinstance(e, ast.Compare) and len(e.ops) == 1:
+            l, r, t = e.left, e.comparators[0], type(e.ops[0])
+            if ast.unparse(l) == "sn" and isinstance(r, ast.Constant) and r.value is None and t in (ast.Is, ast.IsNot, ast.Eq, ast.NotEq):
+                return "snIsNone" if t in (ast.Is, ast.Eq) else "(!snIsNone)"
+            if isinstance(l, ast.Name) and l.id in lean and lean[l.id] != "snTag":
+                if isinstance(r, ast.Constant) and isinstance(r.value, int):
+                    rv = "(%d : Int)" % r.value
+                elif isinstance(r, ast.UnaryOp) and isinstance(r.op, ast.USub) and isinstance(r.operand, ast.Constant):
+                    rv = "(-%d : Int)" % r.operand.value
+                else:
+                    raise Untranslatable("comparison " + ast.unparse(e))
+                op = {ast.Eq: "==", ast.NotEq: "!="}.get(t)
+                if op:
+                    return "(%s %s %s)" % (lean[l.id], op, rv)
+                op = {ast.Lt: "<", ast.Gt: ">", ast.LtE: "≤", ast.GtE: "≥"}[t]
+                return "decide (%s %s %s)" % (lean[l.id], op, rv)
+        raise Untranslatable("loop test " + ast.unparse(e))
+    # the sn bookkeeping: one if / elif chain assigning sn or asserting
+    if not body or not isinstance(body[0], ast.If):
+        raise Untranslatable("sn bookkeeping not found")
+
+    def sn_tree(st):
+        def leaf(stmts):
+            u = [ast.unparse(x) for x in stmts]
+            if u == ["sn = %s" % sn_var]:
+                return ".set"
+            if u == ["assert sn == %s" % sn_var]:
+                return ".check"
+            if not u or u == ["pass"]:
+                return ".keep"
+            raise Untranslatable("sn bookkeeping branch: %s" % u)
+        els = ".keep"
+        if st.orelse:
+            els = sn_tree(st.orelse[0]) if (len(st.orelse) == 1 and isinstance(st.orelse[0], ast.If)) else leaf(st.orelse)
+        return "(if %s then %s else %s)" % (test(st.test), leaf(st.body), els)
+    sn_dec = sn_tree(body[0])
+    body = body[1:]
+
+    def keeps(stmts):
+        if not stmts:
+            return "false"
+        st, rest = stmts[0], stmts[1:]
+        if isinstance(st, ast.Expr) and isinstance(st.value, ast.Call):
+            u = ast.unparse(st.value.func)
+            if u.startswith("logger.") or u.startswith("logging."):
+                return keeps(rest)
+            if u == "orient_list.append" and ast.unparse(st.value.args[0]) == "orient":
+                return "true"
+            raise Untranslatable("loop call " + u)
+        if isinstance(st, ast.Continue):
+            return "false"
+        if isinstance(st, ast.If):
+            return "(if %s then %s else %s)" % (test(st.test), keeps(st.body + rest), keeps(st.orelse + rest))
+        raise Untranslatable("loop statement " + ast.unparse(st)[:60])
+    return ("/-! generated by harness/translate.py from gaftools/cli/sort.py : the body of the path loop of process_alignment — do not edit -/\n"
+            "namespace Gaftools.Gen\n"
+            "inductive SnUpd where\n  | set | check | keep\nderiving DecidableEq, Repr\n\n"
+            "/-- what the loop does to `sn` for a node with rank `sr`: take the node's SN, assert equality with it, or nothing -/\n"
+            "def snDecision (snIsNone : Bool) (sr : Int) : SnUpd := %s\n\n"
+            "/-- whether the node's orientation is appended to `orient_list` (it is a tagged scaffold node) -/\n"
+            "def keepsOrient (bo no : Int) : Bool := %s\nend Gaftools.Gen\n" % (sn_dec, keeps(body)))
+
+
+GENERATORS["SortLoop"] = gen_sort_loop
+
+
 def regenerate(only=None):
     """returns {name: {"tie": "A"|"B-only", "detail": str, "changed": bool}}"""
     os.makedirs(GEN, exist_ok=True)
@@ -1073,6 +1169,16 @@ def regenerate(only=None):
 
 
 FALLBACK = {
+    "SortLoop": """/-! FALLBACK (source construct outside the translator's subset): the path loop of process_alignment as modelled by hand -/
+namespace Gaftools.Gen
+inductive SnUpd where
+  | set | check | keep
+deriving DecidableEq, Repr
+
+def snDecision (snIsNone : Bool) (sr : Int) : SnUpd := if snIsNone && sr == 0 then .set else if sr == 0 then .check else .keep
+def keepsOrient (bo no : Int) : Bool := if bo == -1 || no == -1 then false else if no != 0 then false else true
+end Gaftools.Gen
+""",
     "Edges": """/-! FALLBACK (source construct outside the translator's subset): add_edge / remove_edge as modelled by hand -/
 namespace Gaftools.Gen
 structure Entry where
